@@ -137,3 +137,79 @@ def globality(r, repo):
         desc = 'is_global(element directly inside a component=%d, has an enclosing package=%d, that package is global=%d)' % (in_cc, parent, parent_global)
         r.check(got is want, '%s -> %s' % (desc, want), fn, construct=Q, key='global %d %d %d' % (in_cc, parent, parent_global),
                 msg='%s must be %s; the code yields %r: is_global no longer rejects elements inside a C_C / recurses through EP_PKG' % (desc, want, out))
+
+
+def symbols_exact(ctx, rule_id):
+    '''prebuild.SymbolTable: identifiers are installed and looked up exactly as spelled (OAL identifiers are case sensitive; only
+    keywords are not).  Value-flow rule on the normal form: whatever is compared with / used as a key of Scope.symbols inside
+    find_symbol and install_symbol is the unmodified name parameter resp. the unmodified stored key.'''
+    from .common import resolve_locals
+    repo = ctx.repo
+    PBQ = 'bridgepoint.prebuild:SymbolTable.'
+    r = ctx.rule(rule_id, 'prebuild symbol table: names are stored and compared exactly as written in the action', floor=3,
+                 oracle='OAL identifiers are case sensitive (oal.py t_ID keeps the lexeme)')
+    fs = repo.nfunc(PBQ + 'find_symbol')
+    ins = repo.nfunc(PBQ + 'install_symbol')
+    NAME = param_names(fs)[0]
+    keyvars = set()
+    for lp in [n for n in ast.walk(fs) if isinstance(n, (ast.For, ast.comprehension))]:
+        if not any(isinstance(x, ast.Attribute) and x.attr == 'symbols' for x in ast.walk(lp.iter)):
+            continue
+        t = lp.target
+        items = isinstance(lp.iter, ast.Call) and isinstance(lp.iter.func, ast.Attribute) and lp.iter.func.attr == 'items'
+        if items and isinstance(t, ast.Tuple) and len(t.elts) == 2 and isinstance(t.elts[0], ast.Name):
+            keyvars.add(t.elts[0].id)
+        elif isinstance(t, ast.Name) and not (isinstance(lp.iter, ast.Call) and isinstance(lp.iter.func, ast.Attribute) and lp.iter.func.attr == 'values'):
+            keyvars.add(t.id)
+
+    def derived(e, roots):
+        return any(isinstance(x, ast.Name) and x.id in roots for x in ast.walk(e))
+
+    def exact(e, roots):
+        return isinstance(e, ast.Name) and e.id in roots
+    n = 0
+    for cmp_ in [x for x in ast.walk(fs) if isinstance(x, ast.Compare)]:
+        sides = [resolve_locals(fs, x, pure_only=False) for x in [cmp_.left] + list(cmp_.comparators)]
+        if not any(derived(x, {NAME}) for x in sides) or all(isinstance(x, ast.Constant) or exact(x, {NAME}) for x in sides):
+            continue        # `name is None` and the like
+        if not any(derived(x, keyvars) for x in sides):
+            # name in s.symbols / name == <something else>
+            for x in sides:
+                if derived(x, {NAME}):
+                    n += 1
+                    r.check(exact(x, {NAME}), 'the requested name is used as given in `%s`' % src(cmp_), cmp_, construct=PBQ + 'find_symbol', key='lookup-exact',
+                            msg='find_symbol looks `%s` up instead of the name as written: identifiers that differ only by this transformation '
+                                '(e.g. letter case) resolve to the same variable' % src(x))
+            continue
+        for x in sides:
+            if derived(x, {NAME}):
+                n += 1
+                r.check(exact(x, {NAME}), 'the requested name is compared as given in `%s`' % src(cmp_), cmp_, construct=PBQ + 'find_symbol',
+                        key='name-exact', msg='find_symbol compares `%s` instead of the name as written: identifiers that differ only by this '
+                                              'transformation (e.g. letter case) resolve to the same variable' % src(x))
+            if derived(x, keyvars):
+                r.check(exact(x, keyvars), 'the installed name is compared as stored in `%s`' % src(cmp_), cmp_, construct=PBQ + 'find_symbol',
+                        key='key-exact', msg='find_symbol compares `%s` instead of the installed name: identifiers that differ only by this '
+                                             'transformation (e.g. letter case) resolve to the same variable' % src(x))
+    for sub in [x for x in ast.walk(fs) if isinstance(x, ast.Subscript) and isinstance(x.value, ast.Attribute) and x.value.attr == 'symbols'] + \
+               [x for x in ast.walk(fs) if isinstance(x, ast.Call) and isinstance(x.func, ast.Attribute) and x.func.attr == 'get' and
+                isinstance(x.func.value, ast.Attribute) and x.func.value.attr == 'symbols' and x.args]:
+        k = resolve_locals(fs, sub.slice if isinstance(sub, ast.Subscript) else sub.args[0], pure_only=False)
+        n += 1
+        r.check(exact(k, {NAME}), 'the requested name is the dictionary key in `%s`' % src(sub), sub, construct=PBQ + 'find_symbol', key='lookup-exact',
+                msg='find_symbol looks `%s` up instead of the name as written' % src(k))
+    r.check(n >= 2, 'find_symbol compares the requested name with the installed names', fs, construct=PBQ + 'find_symbol', key='compares',
+            msg='find_symbol no longer compares the requested name with the installed symbol names')
+    IN = param_names(ins)[0]
+    stores = [t for x in ast.walk(ins) if isinstance(x, ast.Assign) for t in x.targets
+              if isinstance(t, ast.Subscript) and isinstance(t.value, ast.Attribute) and t.value.attr == 'symbols']
+    stores += [ast.Subscript(value=x.func.value, slice=x.args[0], ctx=ast.Load(), lineno=x.lineno, col_offset=x.col_offset) for x in ast.walk(ins)
+               if isinstance(x, ast.Call) and isinstance(x.func, ast.Attribute) and x.func.attr == 'setdefault' and
+               isinstance(x.func.value, ast.Attribute) and x.func.value.attr == 'symbols' and x.args]
+    r.check(len(stores) == 1, 'install_symbol stores the symbol in the innermost scope', ins, construct=PBQ + 'install_symbol', key='store',
+            msg='install_symbol no longer stores into <scope>.symbols[name]')
+    for t in stores:
+        k = resolve_locals(ins, t.slice, pure_only=False)
+        r.check(exact(k, {IN}), 'the name is installed exactly as written', ins, construct=PBQ + 'install_symbol', key='install-exact',
+                msg='install_symbol stores the symbol under `%s` instead of the name as written' % src(k))
+    return r
